@@ -819,7 +819,8 @@ func oracleC09(s *Scenario, x *vrt.Exec, o *Obs) []vrt.Violation {
 	if len(x.StallsTaken) > 0 {
 		var ks []string
 		for _, st := range x.StallsTaken {
-			ks = append(ks, "before-"+st.What+"@"+vrt.SiteKey(st.Site))
+			// a goroutine held when it wakes up at an operation is keyed like one held before that operation
+			ks = append(ks, "before-"+strings.TrimPrefix(st.What, "wakeup-")+"@"+vrt.SiteKey(st.Site))
 			stallText += fmt.Sprintf(" [goroutine T%d held %dms before %s at %s]", st.Thread, st.MS, st.What, st.Site)
 		}
 		stallKey = strings.Join(ks, "+")
